@@ -96,7 +96,7 @@ fn universe_types(name: &str) -> Vec<Ty> {
 pub fn run_universe(id: &str, plan: &[(String, Vec<CConfig>)], chunk: usize, level2: bool, seed: u64, known: &dyn Fn(&str) -> bool) -> UniverseOutcome {
     let clang = crate::cc::clang();
     let mut excluded: BTreeMap<&'static str, usize> = BTreeMap::new();
-    let mut jobs: Vec<(CConfig, String, Vec<Ty>)> = Vec::new();
+    let mut jobs: Vec<(CConfig, String, Vec<Ty>, Option<String>)> = Vec::new();
     let mut plan_json = Vec::new();
     let mut all_types: BTreeSet<Ty> = BTreeSet::new();
     let mut configs: Vec<CConfig> = Vec::new();
@@ -124,8 +124,20 @@ pub fn run_universe(id: &str, plan: &[(String, Vec<CConfig>)], chunk: usize, lev
                 configs.push(*cfg);
             }
             for (k, c) in chunks(&types, chunk).into_iter().enumerate() {
-                jobs.push((*cfg, format!("{}/{uname}#{k}", cfg.name()), c));
+                jobs.push((*cfg, format!("{}/{uname}#{k}", cfg.name()), c, None));
             }
+        }
+    }
+    // the split-interfaces world (base types in an import-only interface), once per configuration
+    // of the first plan entry
+    let (split_types, split_wit) = world::split_world();
+    if std::env::var_os("E4_UNIVERSE").is_none() || std::env::var("E4_UNIVERSE").as_deref() == Ok("split") {
+        if let Some((_, cfgs)) = plan.first() {
+            for cfg in cfgs {
+                jobs.push((*cfg, format!("{}/split-interfaces", cfg.name()), split_types.clone(), Some(split_wit.clone())));
+            }
+            plan_json.push(json!({"universe": "split-interfaces world: 4 heap-owning base types in an import-only interface x {T, record{T,u64}, list<T>, option<T>, alias, record{T,list<T>}, variant{T,u64}, tuple<u8,T>}",
+                                  "types": split_types.len(), "configurations": cfgs.iter().map(|c| c.name()).collect::<Vec<_>>()}));
         }
     }
     // biggest universes first would starve nothing: VERIF_SEED only rotates the order of work
@@ -135,8 +147,8 @@ pub fn run_universe(id: &str, plan: &[(String, Vec<CConfig>)], chunk: usize, lev
     }
     let timeout = 300_000;
     let results = vcommon::par_map(jobs.len(), vcommon::ncpu(), |j| {
-        let (cfg, label, types) = &jobs[j];
-        engine::job(types, cfg, &clang, level2, label, timeout)
+        let (cfg, label, types, wit) = &jobs[j];
+        engine::job(types, cfg, &clang, level2, label, timeout, wit.as_deref())
     });
     let types: Vec<Ty> = all_types.into_iter().filter(|t| world::exclusion(t).is_none()).collect();
     let mut out = aggregate(id, &json!(plan_json), &configs, &types, excluded, &results, chunk, known);
@@ -210,7 +222,8 @@ pub fn aggregate(
         let mut seen = BTreeSet::new();
         let mut fresh = 0usize;
         for p in &ps {
-            let key = format!("{class}:{}", p["ty"].as_str().unwrap_or(""));
+            let split = p["world"].as_str() == Some("split-interfaces");
+            let key = format!("{class}:{}{}", p["ty"].as_str().unwrap_or(""), if split { ":split-interfaces" } else { "" });
             if !seen.insert(key.clone()) {
                 continue;
             }
@@ -231,7 +244,7 @@ pub fn aggregate(
                 total,
                 ntypes
             );
-            let detail = json!({"kind": "universe", "config": p["config"], "ty": p["ty_json"], "case": p["case"],
+            let detail = json!({"kind": "universe", "world": p["world"], "config": p["config"], "ty": p["ty_json"], "case": p["case"],
                                 "class": class, "msg": p["msg"], "v1": p["v1"], "v2": p["v2"]});
             violations.push((key, what, detail));
         }
@@ -377,7 +390,13 @@ pub fn replay(id: &str, d: &Value) -> ! {
             let cfg = CConfig::from_name(d["config"].as_str().unwrap_or("")).unwrap_or_else(|| vcommon::machinery("replay: bad config"));
             let want_case = d["case"].as_u64().unwrap_or(0);
             println!("replaying {} on {ty} [{}], case {want_case}", d["class"], cfg.name());
-            let r = engine::job(&[ty], &cfg, &clang, true, "replay", 120_000);
+            let r = if d["world"].as_str() == Some("split-interfaces") {
+                let (tys, wit) = world::split_world();
+                println!("(split-interfaces world: all of its functions are run, problems of other types are listed too)");
+                engine::job(&tys, &cfg, &clang, true, "replay", 120_000, Some(&wit))
+            } else {
+                engine::job(&[ty], &cfg, &clang, true, "replay", 120_000, None)
+            };
             if let Some(m) = r.get("machinery").and_then(|m| m.as_str()) {
                 vcommon::machinery(m);
             }
